@@ -100,21 +100,23 @@ CLAIMED = {
 
 # clauses added after the second wave of seeded changes (appended to the level text)
 ADDED = {
- "C01": " Added: the relative gap divides by the quantity its guard made positive; every residual norm inside pres/dres/pinfres/dinfres is divided by its own reference norm; the glpk and mosek branches of lp assign each documented quantity by the same expression; block walks initialised from dims start where the preceding blocks end.",
- "C02": " Added: residual/normaliser pairing inside pinfres/dinfres.",
- "C03": " Added: relgap and residual pairing; the KKT factories symmetrise after the last lower-triangular contribution (P in 'L' storage) and fully redefine their persistent work matrices; base.gemv's zero-dimension fallback scales by the caller's beta.",
- "C04": " Added: relgap pairing; 's'-block walks initialised from dims start at dims['l'] + sum(dims['q']) (+ mnl).",
- "C06": " Added: the factories behind the solver names symmetrise after the last lower-triangular contribution and fully redefine their work matrices per factorisation; start-point walks begin where the preceding blocks end.",
- "C07": " Added: all copies of one save/restore block go the same direction (one named exception); persistent work matrices of the factories are fully defined before their first read in factor(); triangle typestate lower -> symm -> two-sided ormqr.",
- "C08": " Added: running index variables seeded from an offset address only that offset's matrix; trisc/triusc run under the same path condition; the compiled kernels special-case a cone block only on size zero, like the Python reference.",
- "C09": " Added: no file-scope or static variable of the six C files is written outside module initialisation (the gees/gges callback slots are a named exception).",
- "C11": " Added: negated terms change between the convex and the concave list, copied terms do not.",
- "C13": " Added: solve, _inmatrixform, tofile and the accessors write nothing reachable from the op except the documented results (effect analysis with self protected).",
- "C15": " Added: INT/DOUBLE/COMPLEX arms of every typed switch in dense.c/base.c are identical up to the element type; typecode ids are compared with the -1 sentinel by >= 0 / < 0 only; the dense and sparse block constructors refuse the same conversions.",
- "C17": " Added: the default of an omitted n in the level-1 wrappers equals the number of elements addressed (expression evaluated on a grid); zero-dimension fallbacks of gemv/gbmv/base.gemv scale the same y by the same beta as the main call.",
- "C18": " Added: the info test rejects every nonzero value (one-sided tests are violations); the two arms write the same hand-written results back; 32-bit pivot scratch arrays are copied in the direction the routine uses them.",
- "C19": " Added: base.c's calls through the per-type function-pointer tables are covered by the footprint rule; no integer division/modulo by a divisor that a dominating test does not exclude from zero (8 hand-confirmed data invariants with re-checked preconditions); real and complex sparse kernels use the same subscript expressions.",
- "C20": " Added: the size element of the reduced state is applied by the constructor whenever it is given (also (0,0)).",
+ 'C01': ' Added: the relative gap divides by the quantity its guard made positive; every residual norm inside pres/dres/pinfres/dinfres is divided by its own reference norm; the glpk and mosek branches of lp assign each documented quantity by the same expression; block walks initialised from dims start where the preceding blocks end. Wave 3: block walks advance their offset on every path (no continue before the increment); G is multiplied only through misc.sgemv.',
+ 'C02': " Added: residual/normaliser pairing inside pinfres/dinfres. Wave 3: the normalising scalings of a certificate run under exactly the return's path condition; misc.max_step with a sigma argument is never applied to a returned vector.",
+ 'C03': " Added: relgap and residual pairing; the KKT factories symmetrise after the last lower-triangular contribution (P in 'L' storage) and fully redefine their persistent work matrices; base.gemv's zero-dimension fallback scales by the caller's beta. Wave 3: h is a cone vector by its role (norm discipline); G only through misc.sgemv; additive contributions of the KKT factories are never in alternative arms.",
+ 'C04': " Added: relgap pairing; 's'-block walks initialised from dims start at dims['l'] + sum(dims['q']) (+ mnl). Wave 3: in cpl and cp the matrix G is multiplied only through misc.sgemv in both directions.",
+ 'C06': ' Added: the factories behind the solver names symmetrise after the last lower-triangular contribution and fully redefine their work matrices per factorisation; start-point walks begin where the preceding blocks end. Wave 3: paired kernel calls of the factories agree (tbmv/tbsv blocks, geqrf/ormqr addressing, scaling order); different additive contributions never sit in alternative arms.',
+ 'C07': ' Added: all copies of one save/restore block go the same direction (one named exception); persistent work matrices of the factories are fully defined before their first read in factor(); triangle typestate lower -> symm -> two-sided ormqr. Wave 3: tbmv/tbsv pairs address the same block; ormqr uses the offset/count of its geqrf; one order of double scalings per factory; exclusive-contribution rule; direction rule covers scalar state.',
+ 'C08': " Added: running index variables seeded from an offset address only that offset's matrix; trisc/triusc run under the same path condition; the compiled kernels special-case a cone block only on size zero, like the Python reference. Wave 3: every parsed variable of a compiled kernel is read before it is overwritten and every parameter of a Python kernel is read; if/else arms applying an operation and its inverse have identical argument lists.",
+ 'C09': ' Added: no file-scope or static variable of the six C files is written outside module initialisation (the gees/gges callback slots are a named exception). Wave 3: module-level state of the back-ends (glpk.options) is a protected root of the effect analysis.',
+ 'C11': ' Added: negated terms change between the convex and the concave list, copied terms do not. Wave 3: the path condition of every raise is satisfiable (no dead refusal).',
+ 'C12': ' Wave 3: results are written back whatever the solver returned; G/A assembly loops are alpha-equivalent.',
+ 'C13': ' Added: solve, _inmatrixform, tofile and the accessors write nothing reachable from the op except the documented results (effect analysis with self protected). Wave 3: no shared mutable per-variable record (dict.fromkeys with a mutable value); varlist accumulators are only extended in place.',
+ 'C14': ' Wave 3: bound values of exactly 0.0 are values, not absent; no record group is skipped on the first element of a vector.',
+ 'C15': ' Added: INT/DOUBLE/COMPLEX arms of every typed switch in dense.c/base.c are identical up to the element type; typecode ids are compared with the -1 sentinel by >= 0 / < 0 only; the dense and sparse block constructors refuse the same conversions. Wave 3: Py_BuildValue units have the C width of their arguments; in-place number slots pass the in-place flag.',
+ 'C17': " Added: the default of an omitted n in the level-1 wrappers equals the number of elements addressed (expression evaluated on a grid); zero-dimension fallbacks of gemv/gbmv/base.gemv scale the same y by the same beta as the main call. Wave 3: every parsed variable is read before it is overwritten; the arms call the routine of the wrapper's own name.",
+ 'C18': " Added: the info test rejects every nonzero value (one-sided tests are violations); the two arms write the same hand-written results back; 32-bit pivot scratch arrays are copied in the direction the routine uses them. Wave 3: parsed variables are read before being overwritten and arguments are parsed once; the arms call the routine of the wrapper's own name; hand-written subscripts of a matrix with an offset parameter use that offset.",
+ 'C19': " Added: base.c's calls through the per-type function-pointer tables are covered by the footprint rule; no integer division/modulo by a divisor that a dominating test does not exclude from zero (8 hand-confirmed data invariants with re-checked preconditions); real and complex sparse kernels use the same subscript expressions. Wave 3: parse targets are read before overwritten, one parse call per wrapper; a value that may be Py_NotImplemented is tested before use; calls through per-type dispatch tables exclude NULL entries; hand-written loops over locally allocated arrays are bounded by the allocation; elements of index lists are wrapped before they address anything; sibling sparse kernels are compared semantically (bounded interpretation).",
+ 'C20': ' Added: the size element of the reduced state is applied by the constructor whenever it is given (also (0,0)). Wave 3: Py_BuildValue units match argument widths; the typecode parameter reaches every constructor call.',
 }
 
 NOT_APPLICABLE = {
